@@ -2,6 +2,7 @@ package props
 
 import (
 	"os"
+	"strconv"
 	"testing"
 
 	"verif/harness/ev"
@@ -36,6 +37,12 @@ func TestReplay(t *testing.T) {
 	f, err := fn(path)
 	if err != nil {
 		t.Fatalf("replay error: %v", err)
+	}
+	// a finding whose failure depends on map iteration order is replayed until it shows (bounded)
+	if n, _ := strconv.Atoi(os.Getenv("VERIF_REPLAY_REPEAT")); n > 1 {
+		for i := 1; i < n && f == nil && err == nil; i++ {
+			f, err = fn(path)
+		}
 	}
 	res := ev.ReplayResult{Property: prop}
 	if f != nil {
